@@ -257,8 +257,20 @@ namespace hgraph::detail
                 return false;
             }
 
+            const bool previous_delta_current =
+                previous.modified(link->structural_transition_time());
+            // The previous target keeps the removed marks of its own last
+            // tick until its next mutation (lazy delta cleanup). They only
+            // describe this transition when that tick IS the transition
+            // cycle; a mark left over from an earlier cycle is a key the
+            // consumer has already seen removed, not a published one.
+            if (!previous_delta_current &&
+                state->slot_access->slot_removed(previous, slot))
+            {
+                return false;
+            }
             const bool added_in_transition =
-                previous.modified(link->structural_transition_time()) &&
+                previous_delta_current &&
                 state->slot_access->slot_added(previous, slot);
             return state->slot_access->slot_published(previous, slot) && !added_in_transition;
         }
